@@ -3,7 +3,7 @@ code mapper rules B-MAP / CW-MAP(get)."""
 from . import core, coll
 from .core import Callee, walk, show
 from .view import FnView, pnorm, OPTION
-from .pat import m, ANY, V, K, Par, C, F, E, P, B, Phi, members, It
+from .pat import m, ANY, V, K, Par, C, F, E, P, B, Phi, OneOf, members, It
 from .da import Sites, endswith, anykey
 from .search import switches_on, opt_arms, bool_arms, is_const
 from .roles import reachable_bodies
@@ -237,9 +237,10 @@ def rule_mapper(ctx, R, rules=None):
         # sorted: pairs (c, f) of the histogram with f != 0
         adds = coll.additions(S, lambda t: core.same(t, sorted_t))
         okp = len(adds) == 1
-        it = It(C("core::iter::Iterator::enumerate", C("core::slice::iter", Par(1))))
+        it = It(C("core::iter::Iterator::enumerate", OneOf(C("core::slice::iter", Par(1)), C("core::iter::Iterator::copied", C("core::slice::iter", Par(1))))))
         if okp:
-            okp = m(("tuple", (F(it, "0", "(tuple)"), F(it, "1", "(tuple)"))), adds[0].val)
+            # the pair (index, count): rebuilt field by field, or the enumerate item itself
+            okp = m(("tuple", (F(it, "0", "(tuple)"), F(it, "1", "(tuple)"))), adds[0].val) or m(it, adds[0].val)
         ctx.check(okp, "B-MAP", nb, "sorted-from-histogram", nb.span,
                   "`sorted` must hold (code point, frequency) for the non-zero entries of the histogram; added %s" % [show(a.val) for a in adds])
         # every code point that occurs gets a code: an entry is kept exactly when its count is not zero (filter / if / continue)
